@@ -493,6 +493,14 @@ def shiftPhase {β : Type} [Neg β] [Mul β] [Div β] (E C : β → α) (nat : N
   else if 2 * f = s then C (k / nat 2)
   else E (k * nat (s - f) / nat s)
 
+
+/-- `shift = math.prod(np.ix_(*shifts))` of `CircularConvolve.__init__`: the product over the axes of the 1-d
+    phases, at the flat (row-major) frequency index `p` of the axes `dims`; `ks[a] = −h_center[a]` -/
+def shiftPhaseNd {β : Type} [Neg β] [Mul β] [Div β] [Mul α] [One α] (E C : β → α) (nat : Nat → β) :
+    List β → List Nat → Nat → α
+  | k :: ks, n :: ds, p => shiftPhase E C nat k n (p / prodL ds) * shiftPhaseNd E C nat ks ds (p % prodL ds)
+  | _, _, _ => 1
+
 end CircSpec
 
 /-! ## N-d DFT and N-d circular convolution (row-major flat arrays, recursion over the axes) -/
@@ -649,6 +657,10 @@ def cdiffMatrix [Zero α] [One α] [Sub α] [Neg α] [Div α] (two : α) (n : Na
   if i = 0 then ((if j = 1 then (1 : α) else 0) - (if j = 0 then (1 : α) else 0))
   else if i + 1 = n then ((if j = n - 1 then (1 : α) else 0) - (if j = n - 2 then (1 : α) else 0))
   else ((if j = i + 1 then (1 : α) else 0) - (if j = i - 1 then (1 : α) else 0)) / two
+
+/-- the `diffstack` of `ProjectedGradient._eval` (`cdiff=False`): `snp.diff` along an axis with `append = x[-1:]`,
+    i.e. the `SingleAxisFiniteDifference` options `append=0`; same length as the input -/
+def diffstackCfg : FDCfg := ⟨.no, .b0, false⟩
 
 /-- `ProjectedGradient._eval` for one local axis: `sum([c[m] * grad[m] for m …])` (Python `sum` starts at 0) -/
 def projEval [Add α] [Mul α] [Zero α] : List (V α × V α) → V α
